@@ -278,6 +278,14 @@ def make_plan(rng, n, kind, nact):
     plan = []
     if kind == "all_orders":      # every action order, with a probe of all valid actions at every state
         return None
+    if n >= 6:                    # large player counts: short episodes without exhaustive probing (2^n - n - 2 actions)
+        if kind == "walk":
+            for _ in range(rng.randint(1, 2)):
+                for _ in range(rng.randint(3, 7)):
+                    plan.append(("step", None) if rng.random() < 0.7 else ("unstep", None))
+                plan.append(("reset",))
+            return plan + [("step", None)] * rng.randint(0, 4)
+        nact = 3 if kind == "solve" else 6
     if kind == "walk":
         for _ in range(rng.randint(1, 2)):
             for _ in range(rng.randint(2, nact + 2)):
